@@ -108,6 +108,13 @@ OnRetWith(c, e) ==
       bytes == c.n * c.sz
       done == [st EXCEPT !.call = NoCall, !.leafs = <<>>, !.trks = <<>>]
   IN IF c.id = 0 \/ c.id # e.id THEN Result(done, {V("X", "RetWithoutCall", <<e.id>>)})
+     \* composable release of memory that belongs to nobody in the composition: refused, no leaf takes it, and a
+     \* tracker ("every successful operation exactly once") hears nothing
+     ELSE IF c.op \in {"tdfn", "tdfa"}
+     THEN Result(done,
+            Chk(e.r = "false", "C08", "TryDeallocFalseForForeign", <<st.comp.name, c.op, e.r>>)
+            \cup Chk(okD = {}, "C08", "FalseChangesNothing", <<"a leaf released foreign memory", c.op>>)
+            \cup Chk(st.trks = <<>>, "C09", "TrackerSilentOnRefusal", <<st.comp.name, c.op, Len(st.trks)>>))
      ELSE IF isAlloc
      THEN IF e.r = "ok"
           THEN LET byPool == st.comp.mixed /\ okA = {}
